@@ -546,6 +546,12 @@ func (r *reporter) reportCopyMetric(
 	bucket string,
 	bucketID string,
 ) {
+	// Calls made once the reporter is closed are no-ops: they must not count
+	// as pending, or callers that keep calling would keep Close waiting.
+	if r.done.Load() {
+		return
+	}
+
 	r.pending.Inc()
 	defer r.pending.Dec()
 	verifhook.Point(verifhook.M3Entered)
@@ -573,6 +579,12 @@ func (r *reporter) reportCopyMetric(
 
 // Flush sends an empty sizedMetric to signal a flush.
 func (r *reporter) Flush() {
+	// Calls made once the reporter is closed are no-ops: they must not count
+	// as pending, or callers that keep calling would keep Close waiting.
+	if r.done.Load() {
+		return
+	}
+
 	r.pending.Inc()
 	defer r.pending.Dec()
 	verifhook.Point(verifhook.M3Entered)
